@@ -53,6 +53,29 @@ CLAIMED.update({
               'detector), is judged by TLC against the stream relations of TracePipes.tla.', 'DESIGN.md 4/C06',
               'TLA+ model of the helper loops (Pipes.tla) checked by TLC, schedule replay via hooks, TLC judgement of recorded runs (TracePipes.tla)'),
 })
+ANOTE = ('Trusted: TLC evaluating the law modules over tables recorded from the real code, the concretisation of the abstract universe '
+         '(checked by building every value twice, independently). The numeric universe is its corner structure, not all numbers.')
+
+def laws(text, ref, tech):
+    return dict(engine='laws', level=dict(category='exploration', text=text, design_ref=ref), note=ANOTE, technique=tech)
+
+CLAIMED.update({
+ 'C07': laws('TLC generates the structural universe (sequences, maps, nested, with nil) which the harness builds in every container kind '
+             'and leaf type, next to corner tables of every primitive type; the rank table of the real collator (fresh collator per '
+             'pair, and one shared collator in random order) is judged by TLC: reflexive, mirror, transitive over ALL triples, the '
+             'documented order (reference semantics in TLA+), no panic, independence of earlier calls.', 'DESIGN.md 4/C07',
+             'TLA+ law module (CollatorLaws.tla: reference order + preorder laws) evaluated by TLC over rank tables recorded from the real collator on a TLC-generated universe'),
+ 'C08': laws('Same tables: TLC checks that CompareValues is an equivalence that holds exactly when RankValues is Equal - which, the '
+             'universe being closed under single-point mutation and every value being built twice, covers rebuilt copies and all '
+             'single-point mutants; self-containing values run in a process of their own (depth-limit panic expected, no crash, no '
+             'hang) and the collator must reproduce the acyclic table afterwards.', 'DESIGN.md 4/C08',
+             'TLA+ law module (CollatorLaws.tla) evaluated by TLC over compare/rank tables of the real collator; cyclic cases in a child process'),
+ 'C09': laws('MergeSort.tla (the algorithm, one ranker call per step) is checked by TLC against the sorting laws for every array up to '
+             'length 6-7 and 7 rankers incl. inconsistent ones; TLC enumerates the same inputs for the real sorter and the Array / List / '
+             'Catalog methods (plus random arrays up to 5000), every (input, ranker, output) is judged by TLC against SortLaws.tla, and '
+             'the logged comparison sequences are validated against the model.', 'DESIGN.md 4/C09',
+             'TLA+ algorithm model (MergeSort.tla) checked by TLC + TLC-enumerated inputs run on the real sorter + TLC validation of outputs (SortLaws.tla) and comparison traces'),
+})
 NOT_YET = 'check not built yet (work in progress; see DESIGN.md section 10)'
 
 hooks_commits = [l.split()[0] for l in subprocess.run(['git', '-C', '/repo', 'log', '--format=%h %s'], capture_output=True, text=True).stdout.splitlines() if ' verif-hook:' in l]
@@ -67,6 +90,9 @@ m = {
    {'name': 'queue', 'path': 'spec/QueueImpl.tla spec/QueueLin.tla spec/TraceQueueLin.tla spec/Pipes.tla spec/TracePipes.tla lib/queueeng.py lib/queuechecks.py harness/qsched harness/qstress',
     'serves_properties': [p for p, c in CLAIMED.items() if c['engine'] == 'queue'],
     'kind_free_text': 'implementation-level TLA+ models of the queue and its pipelines; TLC schedules forced onto real goroutines; TLC linearizability validation of recorded histories'},
+   {'name': 'laws', 'path': 'spec/CollatorLaws.tla spec/SortLaws.tla spec/MergeSort.tla lib/agentchecks.py harness/agentx',
+    'serves_properties': [p for p, c in CLAIMED.items() if c['engine'] == 'laws'],
+    'kind_free_text': 'TLA+ law modules evaluated by TLC over observation tables recorded from the real collator / sorter on TLC-generated inputs'},
    {'name': 'world', 'path': 'spec/World.tla spec/MCWorld.tla spec/TraceWorld.tla lib/worldeng.py harness/world',
     'serves_properties': [p for p, c in CLAIMED.items() if c['engine'] == 'world'],
     'kind_free_text': 'sequential TLA+ specification of all collection classes; TLC edge export -> replay on real code; TLC trace validation'},
